@@ -58,7 +58,12 @@ def run_history(rng, kind, ops):
         raise Skip()
     feats = sorted({o[2] for o in ops if o[0] == "add"})
     frank = {f: i for i, f in enumerate(feats)}
-    arch = Archive(make_comparator(rng, kind, m))
+    if kind == "eps" and rng.random() < 0.3:
+        # the default archive: Archive() with its built-in epsilon comparator -- ONE comparator object shared by every default archive of the
+        # process, whatever the number of objectives of the problems it meets
+        arch = Archive()
+    else:
+        arch = Archive(make_comparator(rng, kind, m))
     proj = {}
     trace = []
     k = 0
